@@ -67,7 +67,12 @@ func genBroadTransferNoPassthrough(t *rapid.T, w *world.World) kit.Transfer {
 
 func genMixedPacket(t *rapid.T, w *world.World) kit.Transfer {
 	tr := genBroadTransfer(t, w)
-	switch pick(t, "packet/class", []string{"orbiter", "orbiter", "orbiter", "orbiter", "orbiter", "orbiter", "receiver", "receiver", "mutated", "garbage", "spelled", "crossed-token", "unregistered-action"}) {
+	switch pick(t, "packet/class", []string{"orbiter", "orbiter", "orbiter", "orbiter", "orbiter", "orbiter", "receiver", "receiver", "mutated", "garbage", "spelled", "crossed-token", "unregistered-action", "unrouted-protocol"}) {
+	case "unrouted-protocol":
+		// a protocol identifier that is valid (and can be paused) but has no forwarding controller
+		// in the application's wiring, over attributes of a registered type
+		id := int32(pick(t, "unrouted/id", []int{1, 1, 1, 0, 5}))
+		tr.Route.ProtoID = &id
 	case "unregistered-action":
 		// ACTION_SWAP can be paused and unpaused but the application registers no controller for it
 		if kit.Chance(t, "unregistered/before", 50) {
